@@ -181,7 +181,8 @@ def s_case(draw, ops=None):
         fr = draw(st.lists(st.lists(gen.q(0.12, 0.88, 256), min_size=ndim, max_size=ndim), min_size=n, max_size=n,
                            unique_by=lambda r: tuple(r)))
         kind = draw(st.sampled_from(["PointCloud", "PointUndirectedGraph", "LabelledPointUndirectedGraph"]))
-        lms.append([nm, {"kind": kind, "fr": fr}])
+        # a group's coordinates may be integer-typed (clicked pixel positions): rounded, stored as int64
+        lms.append([nm, {"kind": kind, "fr": fr, "int": draw(st.sampled_from([False, False, True]))}])
     c["lms"] = lms
     c["return_transform"] = draw(st.booleans())
     c["order"] = draw(st.sampled_from([1, 1, 0]))
@@ -236,7 +237,10 @@ def build_source(c):
         else:
             im = Image(px)
     for nm, spec in c["lms"]:
-        im.landmarks[nm] = objs.build_image_landmark(spec, shape)
+        g = objs.build_image_landmark(spec, shape)
+        if spec.get("int"):
+            g.points = np.round(g.points).astype(np.int64)
+        im.landmarks[nm] = g
     return im
 
 
@@ -533,17 +537,20 @@ def c_case(c, ctx):
         compare(ctx, c, src, before, res, _crop_ref(shape, pc.points.min(0) - b, pc.points.max(0) + b), tr)
     elif op in ("crop_to_landmarks", "crop_to_landmarks_proportion"):
         g = c["lms"][0][0]
-        pts = src.landmarks[g].points
+        pts = np.asarray(src.landmarks[g].points, dtype=float)
         if op == "crop_to_landmarks":
             b = c["boundary"]
-            res, tr = _call(src.crop_to_landmarks, c, group=g, boundary=b)
         else:
             rng = pts.max(0) - pts.min(0)
             b = c["proportion"] * (rng.min() if c["minimum"] else rng.max())
-            res, tr = _call(src.crop_to_landmarks_proportion, c, boundary_proportion=c["proportion"], group=g, minimum=c["minimum"])
         mn, mx = pts.min(0) - b, pts.max(0) + b
         if np.any(np.ceil(mx) <= np.floor(mn)):
+            ctx.event("degenerate landmark box: skipped")
             return
+        if op == "crop_to_landmarks":
+            res, tr = _call(src.crop_to_landmarks, c, group=g, boundary=b)
+        else:
+            res, tr = _call(src.crop_to_landmarks_proportion, c, boundary_proportion=c["proportion"], group=g, minimum=c["minimum"])
         compare(ctx, c, src, before, res, _crop_ref(shape, mn, mx), tr)
     elif op == "crop_to_true_mask":
         b = int(c["boundary"])
